@@ -118,6 +118,26 @@ fn direct(crc_filter: Option<bool>) -> Vec<Item> {
                 ],
             }));
             v.push(Item { label: format!("{} md-tlvs", tag), bytes: h.bytes(true, md), crc });
+            // length-value fields on their boundary values (0, 1, 254, 255 octets): file names, a
+            // message to the user, a flow label and the names of a filestore request
+            for (k, n) in [0usize, 1, 254, 255].into_iter().enumerate() {
+                let name = |c: char| Utf8PathBuf::from(std::iter::repeat(c).take(n).collect::<String>());
+                // a TLV announces at most 255 octets: action + two length-value names
+                let half = |c: char| Utf8PathBuf::from(std::iter::repeat(c).take(n.min(126)).collect::<String>());
+                let md = PDUPayload::Directive(Operations::Metadata(MetadataPDU {
+                    closure_requested: k % 2 == 0,
+                    checksum_type: cfdp_core::filestore::ChecksumType::Modular,
+                    file_size: 3,
+                    source_filename: name('s'),
+                    destination_filename: name('d'),
+                    options: vec![
+                        MetadataTLV::FileStoreRequest(FileStoreRequest { action_code: FileStoreAction::RenameFile, first_filename: half('f'), second_filename: half('g') }),
+                        MetadataTLV::MessageToUser(MessageToUser { message_text: vec![0x41; n] }),
+                        MetadataTLV::FlowLabel(FlowLabel { value: vec![7; n] }),
+                    ],
+                }));
+                v.push(Item { label: format!("{} md-lv{}", tag, n), bytes: h.bytes(true, md), crc });
+            }
             // segmented file data
             let mut pdu = h.pdu(
                 true,
